@@ -68,6 +68,15 @@ type c11Scenario struct {
 	ReqConn   []int  `json:"req_conn"`             // ReqConn[i] = downstream connection carrying request i
 	SplitReq  []bool `json:"split_req,omitempty"`  // request i reaches MOSN in two reads
 	SigFirst  bool   `json:"sig_first,omitempty"`  // the signal thread is created before the client threads (default order: requests arrive after the signal)
+	// The signal cannot arrive before this has happened ("" = it can arrive from the start). The default
+	// scheduler runs the signal thread as soon as it may run, deviations delay it: each gate makes the
+	// exploration enumerate the arrival points in the neighbourhood of one phase of the requests' lifetime.
+	//   upstream-sent     a request frame was written to an upstream connection
+	//   reply             an upstream peer is about to deliver its (first) answer
+	//   retry-sent        a second request frame was written upstream (the retry)
+	//   response-written  a frame was written to a downstream connection
+	//   quiesce           nothing can run any more except timers (a request waits for a late reply / a timeout; or all is done)
+	SigGate string `json:"sig_gate,omitempty"`
 	NoTraffic bool   `json:"no_traffic,omitempty"` // (documentation only)
 }
 
@@ -100,6 +109,9 @@ func c11Name(sc *c11Scenario) string {
 	}
 	if sc.SigFirst {
 		s += " signal-thread-first"
+	}
+	if sc.SigGate != "" {
+		s += " signal-not-before=" + sc.SigGate
 	}
 	return s
 }
@@ -314,6 +326,38 @@ func c11Body(sc *c11Scenario, obs *c11Obs) {
 
 	sig := func() {
 		vrt.GoNamed("env:sigterm", func() {
+			switch sc.SigGate {
+			case "upstream-sent":
+				vrt.WaitUntil("signal gate: a request was written upstream", func() bool {
+					for _, u := range obs.hp.Ups {
+						if len(u.Conn.Writes) > 0 {
+							return true
+						}
+					}
+					return false
+				})
+			case "reply":
+				vrt.WaitUntil("signal gate: an upstream peer delivers its answer", func() bool { return len(obs.hp.Log) > 0 })
+			case "retry-sent":
+				vrt.WaitUntil("signal gate: the retry was written upstream", func() bool {
+					n := 0
+					for _, u := range obs.hp.Ups {
+						n += len(u.Conn.Writes)
+					}
+					return n >= 2
+				})
+			case "response-written":
+				vrt.WaitUntil("signal gate: a frame was written downstream", func() bool {
+					for _, d := range obs.Downs {
+						if len(d.Writes) > 0 {
+							return true
+						}
+					}
+					return false
+				})
+			case "quiesce":
+				vrt.QuiesceNoTimers()
+			}
 			// --- the signal arrives
 			obs.SigSeen = true
 			obs.SigAt = vrt.Now()
@@ -505,6 +549,12 @@ func c11Check(sc *c11Scenario, obs *c11Obs, r *vrt.Result, timeConsistent func()
 			where = "inside server.Shutdown"
 		}
 		if !obs.SigSeen {
+			if sc.SigGate != "" && !r.StepLimit {
+				// the phase the gate waits for was never reached: a request hung before any signal
+				// (pkg/proxy's timeout/reset/retry arbitration, recorded under C03): nothing to compare
+				obs.NotCompared = append(obs.NotCompared, "execution in which the signal gate was never reached (request hung without any signal: C03)")
+				return
+			}
 			report("HARNESS the signal thread never ran", r.String())
 			return
 		}
@@ -615,7 +665,8 @@ func c11Outcome(sc *c11Scenario, obs *c11Obs) string {
 
 func c11Scenarios() []c11Scenario {
 	var out []c11Scenario
-	add := func(sc c11Scenario) {
+	th := vreport.Thorough()
+	add := func(sc c11Scenario, gates ...string) {
 		if sc.DrainMs == 0 {
 			sc.DrainMs = 300
 		}
@@ -631,44 +682,60 @@ func c11Scenarios() []c11Scenario {
 		if sc.Hosts == 0 {
 			sc.Hosts = 2
 		}
-		sc.Name = c11Name(&sc)
-		out = append(out, sc)
+		if sc.RouteTimeoutMs == 0 {
+			sc.RouteTimeoutMs = 1000 // beyond the drain time
+		}
+		if len(gates) == 0 {
+			gates = []string{""}
+		}
+		for i, g := range gates {
+			v := sc
+			v.SigGate = g
+			if i%2 == 1 {
+				v.GoAway = !v.GoAway // both settings of the GoAway switch get every kind of scenario
+			}
+			v.Name = c11Name(&v)
+			out = append(out, v)
+		}
 	}
 	one := func(script ...string) []hpRequest { return []hpRequest{{Token: "t1", Script: script}} }
 	two := func(s1, s2 []string) []hpRequest {
 		return []hpRequest{{Token: "t1", Script: s1}, {Token: "t2", Script: s2}}
 	}
-	for _, goaway := range []bool{false, true} {
-		// one request, every upstream behaviour; route timeout beyond the drain time
-		add(c11Scenario{hpScenario: hpScenario{RouteTimeoutMs: 1000, Requests: one(upReply200)}, GoAway: goaway})
-		add(c11Scenario{hpScenario: hpScenario{RouteTimeoutMs: 1000, ReplyDelayMs: 55, Requests: one(upDelayOK)}, GoAway: goaway})
-		add(c11Scenario{hpScenario: hpScenario{RouteTimeoutMs: 1000, Requests: one(upSilent)}, GoAway: goaway})
-		if goaway || vreport.Thorough() {
-			// silent upstream, the route timeout fires inside the drain time
-			add(c11Scenario{hpScenario: hpScenario{RouteTimeoutMs: 105, Requests: one(upSilent)}, GoAway: goaway})
-			// error reply + retry
-			add(c11Scenario{hpScenario: hpScenario{RouteTimeoutMs: 1000, RetryOn: true, NumRetries: 1, Requests: one(upReply5xx, upReply200)}, GoAway: goaway})
-		}
+	ok, delay, silent := []string{upReply200}, []string{upDelayOK}, []string{upSilent}
+	// --- one request on one connection
+	add(c11Scenario{hpScenario: hpScenario{Requests: one(upReply200)}}, "", "", "upstream-sent", "reply", "response-written")
+	add(c11Scenario{hpScenario: hpScenario{ReplyDelayMs: 55, Requests: one(upDelayOK)}}, "", "", "quiesce", "response-written")
+	add(c11Scenario{hpScenario: hpScenario{Requests: one(upSilent)}}, "", "", "quiesce", "upstream-sent")
+	// silent upstream, the route timeout fires inside the drain time
+	add(c11Scenario{hpScenario: hpScenario{RouteTimeoutMs: 105, Requests: one(upSilent)}, GoAway: true}, "", "quiesce")
+	// error reply + retry
+	add(c11Scenario{hpScenario: hpScenario{RetryOn: true, NumRetries: 1, Requests: one(upReply5xx, upReply200)}, GoAway: true}, "", "reply", "retry-sent")
+	// body, request delivered in two reads; signal thread created first
+	add(c11Scenario{hpScenario: hpScenario{Requests: []hpRequest{{Token: "t1", Body: true, Script: ok}}}, SplitReq: []bool{true}, GoAway: true})
+	add(c11Scenario{hpScenario: hpScenario{ReplyDelayMs: 55, Requests: one(upDelayOK)}, SigFirst: true, GoAway: true})
+	// --- two requests on one connection
+	add(c11Scenario{hpScenario: hpScenario{ReplyDelayMs: 55, Requests: two(ok, delay)}, GoAway: true}, "", "quiesce")
+	add(c11Scenario{hpScenario: hpScenario{ReplyDelayMs: 55, Requests: two(delay, silent)}}, "", "quiesce")
+	// --- two connections of one listener
+	add(c11Scenario{hpScenario: hpScenario{ReplyDelayMs: 55, Requests: two(ok, delay)}, Conns: []int{0, 0}, ReqConn: []int{0, 1}, GoAway: true}, "", "response-written")
+	// --- two listeners with one connection each: the drain must wait for both
+	add(c11Scenario{hpScenario: hpScenario{ReplyDelayMs: 55, Requests: two(ok, delay)}, Listeners: 2, Conns: []int{0, 1}, ReqConn: []int{0, 1}}, "", "quiesce")
+	add(c11Scenario{hpScenario: hpScenario{ReplyDelayMs: 55, Requests: two(delay, ok)}, Listeners: 2, Conns: []int{0, 1}, ReqConn: []int{0, 1}, GoAway: true}, "")
+	if !th {
+		add(c11Scenario{hpScenario: hpScenario{ReplyDelayMs: 55, Requests: two(delay, ok)}, Listeners: 2, Conns: []int{0, 1}, ReqConn: []int{0, 1}}, "response-written")
 	}
-	// body, split delivery, signal thread first
-	add(c11Scenario{hpScenario: hpScenario{RouteTimeoutMs: 1000, Requests: []hpRequest{{Token: "t1", Body: true, Script: []string{upReply200}}}}, SplitReq: []bool{true}, GoAway: true})
-	add(c11Scenario{hpScenario: hpScenario{RouteTimeoutMs: 1000, ReplyDelayMs: 55, Requests: one(upDelayOK)}, SigFirst: true, GoAway: true})
-	// two requests on one connection
-	add(c11Scenario{hpScenario: hpScenario{RouteTimeoutMs: 1000, ReplyDelayMs: 55, Requests: two([]string{upReply200}, []string{upDelayOK})}, GoAway: true})
-	add(c11Scenario{hpScenario: hpScenario{RouteTimeoutMs: 1000, ReplyDelayMs: 55, Requests: two([]string{upDelayOK}, []string{upSilent})}})
-	// two connections of one listener; two listeners, one connection each (the drain must wait for both)
-	add(c11Scenario{hpScenario: hpScenario{RouteTimeoutMs: 1000, ReplyDelayMs: 55, Requests: two([]string{upReply200}, []string{upDelayOK})}, Conns: []int{0, 0}, ReqConn: []int{0, 1}, GoAway: true})
-	add(c11Scenario{hpScenario: hpScenario{RouteTimeoutMs: 1000, ReplyDelayMs: 55, Requests: two([]string{upReply200}, []string{upDelayOK})}, Listeners: 2, Conns: []int{0, 1}, ReqConn: []int{0, 1}})
-	add(c11Scenario{hpScenario: hpScenario{RouteTimeoutMs: 1000, ReplyDelayMs: 55, Requests: two([]string{upDelayOK}, []string{upReply200})}, Listeners: 2, Conns: []int{0, 1}, ReqConn: []int{0, 1}, GoAway: true})
-	// an idle second listener next to a busy one
-	add(c11Scenario{hpScenario: hpScenario{RouteTimeoutMs: 1000, ReplyDelayMs: 55, Requests: one(upDelayOK)}, Listeners: 2, Conns: []int{1, 0}, ReqConn: []int{0}})
-	if vreport.Thorough() {
-		add(c11Scenario{hpScenario: hpScenario{RouteTimeoutMs: 1000, TryTimeoutMs: 45, RetryOn: true, NumRetries: 1, Requests: one(upSilent, upReply200)}, GoAway: true})
-		add(c11Scenario{hpScenario: hpScenario{RouteTimeoutMs: 1000, ReplyDelayMs: 295, Requests: one(upDelayOK)}, GoAway: true})
-		add(c11Scenario{hpScenario: hpScenario{RouteTimeoutMs: 1000, ReplyDelayMs: 305, Requests: one(upDelayOK)}})
-		add(c11Scenario{hpScenario: hpScenario{RouteTimeoutMs: 1000, Requests: one(upClose)}, GoAway: true})
-		add(c11Scenario{hpScenario: hpScenario{RouteTimeoutMs: 1000, Requests: []hpRequest{{Token: "t1", Oneway: true, Script: []string{upSilent}}, {Token: "t2", Script: []string{upReply200}}}}, GoAway: true})
-		add(c11Scenario{hpScenario: hpScenario{RouteTimeoutMs: 1000, ReplyDelayMs: 55, Requests: two([]string{upDelayOK}, []string{upDelayOK})}, SplitReq: []bool{false, true}, GoAway: true})
+	// --- an idle second listener next to a busy one
+	add(c11Scenario{hpScenario: hpScenario{ReplyDelayMs: 55, Requests: one(upDelayOK)}, Listeners: 2, Conns: []int{1, 0}, ReqConn: []int{0}}, "", "quiesce")
+	if th {
+		add(c11Scenario{hpScenario: hpScenario{RouteTimeoutMs: 105, Requests: one(upSilent)}}, "", "quiesce")
+		add(c11Scenario{hpScenario: hpScenario{RetryOn: true, NumRetries: 1, Requests: one(upReply5xx, upReply200)}}, "", "response-written", "retry-sent")
+		add(c11Scenario{hpScenario: hpScenario{TryTimeoutMs: 45, RetryOn: true, NumRetries: 1, Requests: one(upSilent, upReply200)}, GoAway: true}, "", "quiesce")
+		add(c11Scenario{hpScenario: hpScenario{ReplyDelayMs: 295, Requests: one(upDelayOK)}, GoAway: true}, "quiesce")
+		add(c11Scenario{hpScenario: hpScenario{ReplyDelayMs: 305, Requests: one(upDelayOK)}}, "quiesce")
+		add(c11Scenario{hpScenario: hpScenario{Requests: one(upClose)}, GoAway: true}, "", "upstream-sent")
+		add(c11Scenario{hpScenario: hpScenario{Requests: []hpRequest{{Token: "t1", Oneway: true, Script: silent}, {Token: "t2", Script: ok}}}, GoAway: true})
+		add(c11Scenario{hpScenario: hpScenario{ReplyDelayMs: 55, Requests: two(delay, delay)}, SplitReq: []bool{false, true}, GoAway: true})
 	}
 	return out
 }
@@ -823,6 +890,9 @@ func c11Explore(p *vreport.Part, sc c11Scenario, opts vrt.Options, collect bool,
 				if !f.IsRequest && f.ID == uint32(100+i) {
 					answered = "answered"
 				}
+			}
+			if !obs.SigSeen {
+				continue
 			}
 			if obs.InFlight[i] {
 				p.Count("signal-at-phase:"+obs.PhaseSig[i], 1)
